@@ -6,7 +6,8 @@ use crate::engine::{default_cfg, explore, replay_trace, Evidence};
 use crate::scn_lair::LairScn;
 
 pub fn scenario(tier: &str) -> LairScn {
-    let users: Vec<String> = if tier == "quick" { vec![ALICE.into(), BOB.into()] } else { vec![ALICE.into(), BOB.into(), CAROL.into()] };
+    let users: Vec<String> = vec![ALICE.into(), BOB.into(), CAROL.into()];
+    let _ = tier;
     LairScn { users, period_ns: 1_000_000_000_000 }
 }
 
@@ -16,7 +17,7 @@ pub fn run(tier: &str, seed: u64) -> i32 {
         "fee distributor has no epoch yet (id 0), so bonding is never blocked by unclaimed rewards or a stale epoch; those interactions are explored in C09".into(),
         "time advances only through explicit environment actions {1ns, period-1ns, period, 1 day}; all other actions happen in the same block".into(),
     ];
-    let depth = if tier == "quick" { 4 } else { 5 };
+    let depth = if tier == "quick" { 4 } else { 6 };
     let cfg = default_cfg("C08", tier, seed, depth);
     ev.add_report(explore(&scenario(tier), &cfg));
     if ev.violations.is_empty() {
